@@ -1327,8 +1327,15 @@ fn rebuild_value(
             builder.token(k.into(), &t);
         }
     } else {
+        // A first line starting with '#' has to stay on the line of the field name:
+        // on a line of its own it would read as a comment.
+        let first_is_hash = tokens
+            .iter()
+            .find(|(k, _t)| *k != NEWLINE && *k != WHITESPACE)
+            .map(|(_k, t)| t.starts_with('#'))
+            .unwrap_or(false);
         // Insert a leading newline if the value is multi-line and immediate_empty_line is set
-        if immediate_empty_line && has_newline {
+        if immediate_empty_line && has_newline && !first_is_hash {
             builder.token(NEWLINE.into(), "\n");
             last_was_newline = true;
         } else {
